@@ -110,7 +110,9 @@ def step (st : St) (t : List String) : Option (St × String) :=
       | none => pure (st, "ok notfound")
   | ["appptr", i] => do
       let i ← i.toNat?
-      if st.vsbx ∧ ¬ st.w.isCreated i then pure (abortSt st) else pure (st, "ok")
+      -- backend artefact, not part of C14: the verification backend has no memory before its first (even failed) creation
+      -- and after a destroy; a token cannot be turned into an address then
+      if st.vsbx ∧ (st.w.sbx i).status == .notCreated then pure (abortSt st) else pure (st, "ok")
   | ["hprobe", i] => do
       let i ← i.toNat?
       let s := st.w.sbx i
